@@ -32,6 +32,8 @@ type Val struct {
 	cloB []Val
 	rng  *rangeIter
 	typ  types.Type
+	gl   *ssa.Global     // provenance: value or address derived from this package-level variable
+	cands []*ssa.Function // function value known to be one of these
 }
 
 // Addr: location = mem[key][idxs[0]][idxs[1]]... ; typ is the pointee type.
@@ -39,6 +41,7 @@ type Addr struct {
 	key  string
 	idxs []Sx
 	typ  types.Type
+	gl   *ssa.Global
 }
 
 type rangeIter struct {
@@ -86,6 +89,8 @@ type Translator struct {
 	topArgs   []Val
 	topEntry  *State
 	regions   map[string]Sx
+	ginvDone  map[string]bool
+	havocGuards []Sx // path conditions of the sites where the whole heap is havocked
 }
 
 type Frame struct {
@@ -129,6 +134,7 @@ func (tr *Translator) memInit(key string, ms memSort) Sx {
 	n := "H0_" + sym(key)
 	tr.c.addDecl(n, fmt.Sprintf("(declare-const %s %s)", n, sort), "")
 	tr.initMem[key] = n
+	tr.globalInitFacts(key, n)
 	return n
 }
 
@@ -805,9 +811,13 @@ func (f *Frame) val(v ssa.Value) Val {
 		return tr.constVal(x.Type(), x.Value)
 	case *ssa.Global:
 		key := "G:" + strings.TrimPrefix(strings.TrimPrefix(x.Pkg.Pkg.Path(), modPath+"/pkg/"), modPath+"/") + "." + x.Name()
-		return Val{addr: &Addr{key: key, typ: derefType(x.Type())}, typ: x.Type()}
+		return Val{addr: &Addr{key: key, typ: derefType(x.Type()), gl: x}, typ: x.Type(), gl: x}
 	case *ssa.Function:
 		return Val{t: tr.c.funcID(x), fn: x, typ: x.Type()}
+	case *ssa.ChangeType:
+		if fn := asStaticFunc(x); fn != nil {
+			return Val{t: tr.c.funcID(fn), fn: fn, typ: x.Type()}
+		}
 	case *ssa.Builtin:
 		return Val{typ: x.Type()}
 	}
